@@ -166,7 +166,7 @@ class Walker:
         if l in env:
             return env[l]
         if 1 <= l <= self.body.arg_count and l not in self.init_env:
-            return ("arg", l, self.body.local_name(l))
+            return ("arg", l, argname(l, self.body.local_name(l)))
         return ("local", l, self.body.path)
 
     def place_term(self, st, p, read=True):
@@ -698,6 +698,11 @@ def strip(t):
     while isinstance(t, tuple) and t and t[0] in ("cast", "coerce"):
         t = t[1]
     return t
+
+
+def argname(l, name):
+    """arguments are identified by position (renaming a parameter changes nothing); `self` keeps its name"""
+    return "self" if name == "self" else "arg%d" % l
 
 
 def fmt(t, depth=0):
